@@ -32,7 +32,8 @@ PROP = {'gen': [],
                'images and glyphs (including cells behind wide characters and under images), after every frame the terminal displays '
                'exactly the denotation of the drawn surface = what a naive painter leaves on a blank terminal, and no command is a '
                'protocol error (C01_history, C01_history_final, C01_scratch); after new(clear=true) / clear() the next frame repaints '
-               'every cell on an arbitrary previous screen (C01_forced; C01_clear_then_frame: clear(), draw S, frame() shows S); '
+               'every cell on an arbitrary previous screen (C01_forced; C01_forced_history: a renderer re-created without clear() on any screen, then any history, tolerating '
+               'exactly the placements the terminal had; C01_clear_then_frame: clear(), draw S, frame() shows S); '
                'the "forced clear" part of the property is carried by the order of run_render (poll; frames_drop; clear(); on a Resize '
                'event clear() and a new renderer; only then the handler draws; frame()) and proved for the render loop with its '
                'output queue and frame dropping, end to end: whatever the tty takes, whatever frames_pending() answers and whichever prefix '
@@ -62,11 +63,12 @@ PROP = {'gen': [],
                'C16_render_loop_schema, C16_queue_drop) the interface of the output queue: chunks delimited by flush/poll, delivered in order and '
                'whole, frames_drop discards only whole chunks never seen by the tty (modelled: a drop keeps a prefix of the queue). '
                'translate/c01const.py regenerates TERMINAL_FRAMES_DROP and checks the shape of the comparison. No axioms (Print Assumptions: closed for all theorems). '
-               'Limits: not modelled - command bytes (C05), image protocols, glyph pixels, a Terminal whose execute() fails (error exits of '
-               'frame(), the error-cleanup branch of run_render), a resize to another size while frames are pending; changes that alter the '
+               'Limits: not modelled - command bytes (C05), image protocols, glyph pixels, a Terminal whose execute() fails (aborted frames are in the correspondence '
+               'run and the predicate, not in the theorems; the error-cleanup branch of run_render is not run), a resize to another size while frames are pending; changes that alter the '
                'command list but not the picture (EraseChars threshold, command order) are reported as broken correspondence without a '
                'failing input; changes visible only between an overlapping frame and the next forced repaint are detected as model != code only. '
-               'Seeded changes C01_a..d: all caught with failing inputs.',
+               'Seeded changes C01_a, b, c, d, n, p: all caught with failing inputs. translate/c01const.py also fails when TerminalRenderer '
+               'gains a public method or run_render calls the renderer in another order than Render/Loop.v models.',
  'technique': 'Coq proof (invariant over histories; last-writer-wins fold invariant for pass 1; order-free "a correct cell stays correct" '
               'argument for passes 2 and 3) + model/implementation correspondence on command lists + reference-terminal predicate on the '
               'implementation\'s commands',
@@ -86,7 +88,9 @@ PROP = {'gen': [],
                   HARNESS],
  'assumptions': ['histories (C01_history*, C01_scratch): the terminal executes exactly the commands the renderer issued; output dropped by '
                  'frames_drop is covered by the render-loop theorems (chunks executed whole or not at all) and by "arbitrary previous '
-                 'screen" (C01_forced, C01_clear_then_frame, Resize); a terminal whose execute() fails is not modelled',
+                 'screen" (C01_forced, C01_forced_history, C01_clear_then_frame, Resize); a frame() that returns Err (execute() failed) is '
+                 'not a rendered frame and is outside the theorems; that the next rendered frame shows its surface is checked on the '
+                 'code only (op FailFrame, Spec.resume_run)',
                  'oracle_ok: a space has display width 1; a blank in the default face is an untouched cell; the faces the renderer '
                  'treats as erasable erase like printed spaces. Characters of width 0 and wide characters in the last column are '
                  'outside the domain',
